@@ -120,6 +120,12 @@ func (w *World) matchFuncs(name string) []string {
 	if _, ok := w.Funcs[name]; ok {
 		return []string{name}
 	}
+	if real, ok := w.Alias[repoModule+"/"+name]; ok {
+		return []string{real}
+	}
+	if real, ok := w.Alias[name]; ok {
+		return []string{real}
+	}
 	for k := range w.Funcs {
 		s := shortFuncName(k)
 		if unqual(s) == name {
